@@ -7,6 +7,7 @@
 //                    block-function answers the Lean model needs (external recorded from the library)
 #include "common.h"
 #include <cppcms/crypto.h>
+#include "aes_encryptor.h"
 #include <booster/backtrace.h>
 #include <openssl/md5.h>
 #include <openssl/sha.h>
@@ -292,6 +293,96 @@ static std::string op_cbcuse(strs const &w)
 	}
 }
 
+// ---- the cookie layer on top of cbc + hmac (src/aes_encryptor.cpp; proved in C05, exercised here) ----
+// independent decoder of an aes_cipher text, libcrypto only: body ‖ HMAC(mac key, body); body = CBC of
+// (one block nobody reads) ‖ uint32 length (host order) ‖ payload ‖ zero padding.  Returns false if malformed.
+static bool ref_aes_decode(unsigned bits,std::string const &ck,std::string const &mac,std::string const &mk,std::string const &c,std::string &payload)
+{
+	unsigned ds=EVP_MD_get_size(evp(mac));
+	if(c.size()<ds+32 || (c.size()-ds)%16) return false;
+	size_t real=c.size()-ds;
+	unsigned char tag[EVP_MAX_MD_SIZE]; unsigned n=0;
+	static char const dummy=0;
+	HMAC(evp(mac),mk.empty()?&dummy:mk.data(),mk.size(),reinterpret_cast<unsigned char const*>(c.data()),real,tag,&n);
+	if(n!=ds || memcmp(tag,c.data()+real,ds)!=0) return false;
+	AES_KEY dk;
+	AES_set_decrypt_key(reinterpret_cast<unsigned char const*>(ck.data()),bits,&dk);
+	std::string plain;
+	for(size_t b=16;b<real;b+=16) {          // block 0 decrypts to garbage without the sender's IV: skip it
+		unsigned char tmp[16];
+		AES_decrypt(reinterpret_cast<unsigned char const*>(c.data()+b),tmp,&dk);
+		plain+=xor16(std::string(reinterpret_cast<char*>(tmp),16),c.substr(b-16,16));
+	}
+	uint32_t size=0;
+	memcpy(&size,plain.data(),4);
+	if(size>plain.size()-4) return false;
+	payload=plain.substr(4,size);
+	return true;
+}
+static unsigned bits_of(std::string const &name)
+{
+	if(name.find("192")!=std::string::npos) return 192;
+	if(name.find("256")!=std::string::npos) return 256;
+	return 128;
+}
+static std::string aes_exercise(sessions::encryptor &e1,sessions::encryptor &e2,unsigned bits,std::string const &ck,std::string const &mac,std::string const &mk,std::string const &p)
+{
+	std::string c1=e1.encrypt(p),c2=e1.encrypt(p);            // one object used twice: the IV chain moves on
+	if(c1.size()!=c2.size()) return "length-differs-between-calls";
+	if(c1==c2) return "same-cipher-text-twice";
+	std::string o;
+	if(!e2.decrypt(c1,o) || o!=p) return "decrypt-failed-1";
+	o="x"; if(!e2.decrypt(c2,o) || o!=p) return "decrypt-failed-2";     // receiver used twice
+	o="x"; if(!e2.decrypt(c1,o) || o!=p) return "decrypt-failed-replayed";
+	o="x"; if(!e1.decrypt(c2,o) || o!=p) return "decrypt-failed-by-sender";
+	std::string r;
+	if(!ref_aes_decode(bits,ck,mac,mk,c1,r) || r!=p) return "independent-decoder-disagrees-1";
+	if(!ref_aes_decode(bits,ck,mac,mk,c2,r) || r!=p) return "independent-decoder-disagrees-2";
+	std::string t=c1; t[(p.size()*7+3)%t.size()]^=0x10;
+	o="x"; if(e2.decrypt(t,o)) return "tampered-text-accepted";
+	t=c1.substr(0,c1.size()-1);
+	if(e2.decrypt(t,o)) return "truncated-text-accepted";
+	char buf[32]; snprintf(buf,sizeof(buf),"ok %u",unsigned(c1.size()));
+	return buf;
+}
+// `aesrt <cbc name> <cbc key> <mac name> <mac key> <payload>`
+static std::string op_aesrt(strs const &w)
+{
+	std::string ck,mk,p;
+	if(w.size()!=6 || !vh::unhex(w[2],ck) || !vh::unhex(w[4],mk) || !vh::unhex(w[5],p) || !known_algo(w[3])) return "bad-op";
+	try {
+		sessions::impl::aes_cipher e1(w[1],w[3],crypto::key(ck.data(),ck.size()),crypto::key(mk.data(),mk.size()));
+		sessions::impl::aes_cipher e2(w[1],w[3],crypto::key(ck.data(),ck.size()),crypto::key(mk.data(),mk.size()));
+		return aes_exercise(e1,e2,bits_of(w[1]),ck,w[3],mk,p);
+	}
+	catch(booster::invalid_argument const &e) { return "refused"; }
+}
+// `aesfac <cbc name> <combined key> <payload>`: aes_factory(algo,key) against the key split / derivation done here
+static std::string op_aesfac(strs const &w)
+{
+	std::string k,p;
+	if(w.size()!=4 || !vh::unhex(w[2],k) || !vh::unhex(w[3],p)) return "bad-op";
+	unsigned bits=bits_of(w[1]),cks=bits/8,ds=20;
+	std::string ck,mk;
+	bool expect_ok=true;
+	if(k.size()==cks+ds) { ck=k.substr(0,cks); mk=k.substr(cks); }
+	else if(k.size()>=cks) {
+		EVP_MD const *md = k.size()*8<=256 ? EVP_sha256() : EVP_sha512();
+		unsigned char k1[EVP_MAX_MD_SIZE],k2[EVP_MAX_MD_SIZE]; unsigned n=0;
+		HMAC(md,k.data(),k.size(),reinterpret_cast<unsigned char const*>("0"),1,k1,&n);
+		HMAC(md,k.data(),k.size(),reinterpret_cast<unsigned char const*>("\1"),1,k2,&n);
+		ck.assign(reinterpret_cast<char*>(k1),cks); mk.assign(reinterpret_cast<char*>(k2),ds);
+	}
+	else expect_ok=false;
+	try {
+		sessions::impl::aes_factory f(w[1],crypto::key(k.data(),k.size()));
+		if(!expect_ok) return "accepted-short-key";
+		std::unique_ptr<sessions::encryptor> e1=f.get(),e2=f.get();
+		return aes_exercise(*e1,*e2,bits,ck,"sha1",mk,p);
+	}
+	catch(booster::invalid_argument const &e) { return expect_ok ? "refused-good-key" : "refused"; }
+}
+
 static std::string key_result(crypto::key const &k) { return "ok "+vh::hex(k.data(),k.size()); }
 
 static std::string op_key(strs const &w)
@@ -398,6 +489,8 @@ int main(int argc,char **argv)
 		if(w[0]=="hmac2") return op_hmac(w,ref,true);
 		if(w[0]=="cbc") return op_cbc(w,ref);
 		if(w[0]=="cbcuse") return ref ? "n/a" : op_cbcuse(w);
+		if(w[0]=="aesrt") return ref ? "n/a" : op_aesrt(w);
+		if(w[0]=="aesfac") return ref ? "n/a" : op_aesfac(w);
 		if(w[0]=="key") return ref ? "n/a" : op_key(w);
 		if(w[0]=="keyfile") return ref ? "n/a" : op_keyfile(w);
 		if(w[0]=="big") return op_big(w,ref);
